@@ -1,24 +1,25 @@
 #!/bin/bash
-# confirm a seeded change in its scratch worktree: usage confirm_seed.sh <ID> [extra RUSTFLAGS]
+# confirm a seeded change in its scratch worktree: usage confirm_seed.sh <ID> [extra RUSTFLAGS] [extra cargo flags]
 # 1. with the change: crate compiles, the repository's own tests pass, the demonstration fails
 # 2. without the change: the demonstration passes
 set -u
 ID=$1; W=/tmp/mut/$ID; O=/tmp/mut/$ID.out; lc=$(echo $ID | tr 'A-Z' 'a-z')
 export CARGO_NET_OFFLINE=true
 export RUSTFLAGS="${2:-}"
+CF="${3:-}"
 cd $W || exit 2
 git diff -- src > $O/patch.confirm.diff
 cmp -s $O/patch.confirm.diff $O/patch.diff || echo "NOTE: patch.diff differs from worktree diff (using worktree diff)"
 demo=$(ls tests/demo_*.rs | head -1); name=$(basename $demo .rs)
 echo "== with change: repository tests (demo excluded)"
 mv $demo /tmp/mut/$ID.demo.rs
-cargo test --offline 2>&1 | grep -E "^test result|FAILED|error(\[|:)" | sort | uniq -c | tail -5
+cargo test --offline $CF 2>&1 | grep -E "^test result|FAILED|error(\[|:)" | sort | uniq -c | tail -5
 mv /tmp/mut/$ID.demo.rs $demo
 echo "== with change: demo"
-cargo test --offline --test $name 2>&1 | grep -E "^test result|error(\[|:)" | tail -3
+cargo test --offline $CF --test $name 2>&1 | grep -E "^test result|error(\[|:)" | tail -3
 echo "== without change: demo"
 # (no git stash: the stash is shared between worktrees of one repository)
 git checkout -q -- src
-cargo test --offline --test $name 2>&1 | grep -E "^test result|error(\[|:)" | tail -3
+cargo test --offline $CF --test $name 2>&1 | grep -E "^test result|error(\[|:)" | tail -3
 git apply $O/patch.confirm.diff
 git status --short | head -5
